@@ -256,6 +256,18 @@ def work(p):
             st = SQLiteStore.make_store(db)
             st.add(traces)
             st.conn.close()
+            if rng.random() < 0.5:
+                # the store also holds rows that no longer decode (a function and a class that are gone): they are skipped (C10) and
+                # must not change how the decodable rows are treated
+                import sqlite3
+
+                conn = sqlite3.connect(db)
+                with conn:
+                    conn.execute("INSERT INTO monkeytype_call_traces VALUES (datetime('now'), ?, 'gone_function', '{}', NULL, NULL)", (m.name,))
+                    conn.execute("INSERT INTO monkeytype_call_traces VALUES (datetime('now'), ?, ?, ?, NULL, NULL)",
+                                 (m.name, traces[0].func.__qualname__, '{"zz": {"module": "' + m.name + '", "qualname": "GoneClass"}}'))
+                conn.close()
+                res.count("cli_stores_with_undecodable_rows")
         for sname, strat in (("REPLICATE", S.REPLICATE), ("OMIT", S.OMIT), ("IGNORE", S.IGNORE)):
             keys, text = judge_module(res, tmod, m, traces, k, strat, sname, via_cli=db, rewriter=spec.get("rewriter", "NoOpRewriter"))
             for key, texts in keys.items():
@@ -304,6 +316,7 @@ def run(ck):
         ck.merge(r)
     ck.need("position_cells", 8000)
     ck.need("cli_stub_runs", 100, "CLI flag stratum did not run")
+    ck.need("cli_stores_with_undecodable_rows", 30)
     ck.need("cells", 30, "cells of strategy x annotated? x traced? x parameter kind unseen")
     ck.need("return_kinds", 4)
     ck.need("optional_wraps_expected", 30)
